@@ -119,7 +119,7 @@ func TestVerifPartiallyBlindVerifierDifferential(t *testing.T) {
 	var cases []dc
 	for ki, name := range safeKeyNames {
 		k := loadKey(t, name)
-		for i := 0; i < lib.Scale([]int{3, 2, 2}[ki], []int{300, 200, 150}[ki]); i++ {
+		for i := 0; i < lib.Scale([]int{3, 3, 2, 2}[ki], []int{300, 250, 200, 150}[ki]); i++ {
 			cases = append(cases, dc{k, i})
 		}
 	}
